@@ -158,7 +158,7 @@ func (a *Analysis) PathsOpt(rel string, opt PathOpts) ([]*Path, error) {
 					return true
 				}
 			}
-			return false
+			return IsNewHelper(callee)
 		}
 	}
 	wantRoot := func(f *FuncInfo) bool {
@@ -461,4 +461,70 @@ func (a *Analysis) ShareCache(b *Analysis, except ...string) {
 			a.paths[k] = v
 		}
 	}
+}
+
+// AddrOnlySelected reports whether the address expression u (somewhere inside root) is bound to a local
+// variable (`v := &x.f`) whose every other use is the base of a field selection `v.g`. Such a pointer never
+// leaves the function: it is a name for x.f, reads and writes of x.f.g through it are visible as what they
+// are (the walker resolves the alias, field identities come from the types), and taking it is no write.
+func AddrOnlySelected(info *types.Info, root ast.Node, u *ast.UnaryExpr) bool {
+	var obj types.Object
+	parent := map[ast.Node]ast.Node{}
+	var stack []ast.Node
+	ast.Inspect(root, func(n ast.Node) bool {
+		if n == nil {
+			stack = stack[:len(stack)-1]
+			return true
+		}
+		if len(stack) > 0 {
+			parent[n] = stack[len(stack)-1]
+		}
+		stack = append(stack, n)
+		return true
+	})
+	var n ast.Node = u
+	for {
+		p, ok := parent[n].(*ast.ParenExpr)
+		if !ok {
+			break
+		}
+		n = p
+	}
+	as, ok := parent[n].(*ast.AssignStmt)
+	if !ok || len(as.Lhs) != len(as.Rhs) {
+		return false
+	}
+	for i, r := range as.Rhs {
+		if r == n {
+			if id, ok := as.Lhs[i].(*ast.Ident); ok {
+				if obj = info.Defs[id]; obj == nil {
+					obj = info.Uses[id]
+				}
+			}
+		}
+	}
+	v, ok := obj.(*types.Var)
+	if !ok || v.IsField() || v.Parent() == nil || (v.Pkg() != nil && v.Parent() == v.Pkg().Scope()) {
+		return false
+	}
+	if v.Pos() < root.Pos() || v.Pos() >= root.End() {
+		return false // declared outside root: it has uses this scan does not see
+	}
+	only := true
+	ast.Inspect(root, func(x ast.Node) bool {
+		id, ok := x.(*ast.Ident)
+		if !ok || info.Uses[id] != obj {
+			return true
+		}
+		sel, isSel := parent[id].(*ast.SelectorExpr)
+		if !isSel || sel.X != id {
+			only = false
+			return true
+		}
+		if s := info.Selections[sel]; s == nil || s.Kind() != types.FieldVal {
+			only = false
+		}
+		return true
+	})
+	return only
 }
